@@ -86,6 +86,13 @@ static void blk_malformed(void) {
 		for (size_t bit = 0; bit < cl * 8; bit++) { if (!vh_next()) continue; memcpy(m, ct, cl); m[bit / 8] ^= (uint8_t)(1 << (bit % 8)); offer("malformed:bitflip", d, m, cl); }
 		for (size_t k = 0; k < cl; k++) { if (!vh_next()) continue; offer("malformed:truncation", d, ct, k); }
 		for (int v = 0; v < 256; v += (n == 255 ? 17 : 1)) { if (!vh_next()) continue; memcpy(m, ct, cl); m[cl] = (uint8_t)v; offer("malformed:extension-outside", d, m, cl + 1); }
+		/* zero-trimmed / zero-extended fixed-size fields: a decoder that pads a short C3 with zeros would accept a byte string that is not a
+		   ciphertext; needs a ciphertext whose C3 ends (resp. starts) with a zero octet: search the nonce */
+		if (vh_next()) for (int end = 0; end < 2; end++) { uint8_t e1[64], e3[32], e2[256]; int got = 0; for (unsigned kv = 100; kv < 6000 && !got; kv++) { BN_set_word(t, 0x85ebca6bu * kv + d); bn_to_be(kb, t); if (sr_encrypt(PUB[d], kb, PT[2], n, e1, e3, e2) && e3[end ? 31 : 0] == 0) got = 1; }
+			if (!got) { vh_obs("no nonce with a zero %s octet of C3 found", end ? "last" : "first"); continue; }
+			uint8_t b[440]; size_t l = 0; l += der_put_uint(b + l, e1, 32); l += der_put_uint(b + l, e1 + 32, 32); l += der_put_tlv(b + l, 0x04, end ? e3 : e3 + 1, 31); l += der_put_tlv(b + l, 0x04, e2, n); size_t ml = der_put_tlv(m, 0x30, b, l); offer(end ? "malformed:c3-trailing-zero-cut" : "malformed:c3-leading-zero-cut", d, m, ml);
+			uint8_t e33[33]; memset(e33, 0, 33); memcpy(e33 + (end ? 0 : 1), e3, 32); l = 0; l += der_put_uint(b + l, e1, 32); l += der_put_uint(b + l, e1 + 32, 32); l += der_put_tlv(b + l, 0x04, e33, 33); l += der_put_tlv(b + l, 0x04, e2, n); ml = der_put_tlv(m, 0x30, b, l); offer(end ? "malformed:c3-zero-appended" : "malformed:c3-zero-prepended", d, m, ml);
+			ml = enc_ct(m, e1, e3, e2, n); offer("malformed:c3-with-zero-octet-untouched", d, m, ml); }
 		if (!vh_next()) continue;
 		/* C1 substitutions */
 		{ uint8_t v1[64]; const BIGNUM *p = sr_p(); BIGNUM *y = BN_new();
